@@ -65,7 +65,7 @@ func c13Claims(c psatoken.IClaims, m *MClaims) string {
 		if alt >= 0 {
 			allowed[alt] = true
 		}
-		if k == CSwComps && !m.CompsNil && len(m.Comps) > 0 && !(m.Prof == P1 && m.NoMeas != nil) {
+		if k == CSwComps && !m.CompsNil && len(m.Comps) > 0 {
 			// the error may come from any offending field of any component
 			for _, sc := range m.Comps {
 				for cl := range compClasses(sc) {
